@@ -15,6 +15,7 @@ pub fn entries() -> Vec<(&'static str, crate::EntryFn)> {
         ("realudp", entry_realudp),
         ("realecho", entry_realecho),
         ("realrefused", entry_realrefused),
+        ("realtcp", entry_realtcp),
     ]
 }
 
@@ -174,4 +175,69 @@ fn entry_realrefused(args: &[&str]) -> String {
         Ok(_) => format!("OK ;; - ;; T{elapsed}"),
         Err(e) => format!("ERR {} ;; - ;; T{}", kind_name(&e.kind), elapsed),
     }
+}
+
+/// `realtcp <v4|v6> <timeout_ms> <c|h> <hex|.>`: a TCP peer that reads the 4-byte request, writes the given bytes
+/// and then closes (`c`) or keeps the connection open without another byte (`h`, for ten timeouts + 3 s):
+/// `receive` returns everything written before the close, or fails within the read timeout
+fn entry_realtcp(args: &[&str]) -> String {
+    if args.len() != 4 {
+        return "bad-case".into();
+    }
+    let (Some(bind), Ok(ms), Some(reply)) = (loopback(args[0]), args[1].parse::<u64>(), unhex_dot(args[3])) else {
+        return "bad-case".into();
+    };
+    let hold = match args[2] {
+        "c" => false,
+        "h" => true,
+        _ => return "bad-case".into(),
+    };
+    let listener = TcpListener::bind(bind).expect("bind");
+    let addr = listener.local_addr().unwrap();
+    let done = Arc::new(AtomicBool::new(false));
+    let done2 = done.clone();
+    let h = std::thread::spawn(move || {
+        let (mut s, _) = listener.accept().ok()?;
+        s.set_read_timeout(Some(Duration::from_millis(2000))).ok()?;
+        let mut got = [0u8; 4];
+        s.read_exact(&mut got).ok()?;
+        s.write_all(&reply).ok()?;
+        s.flush().ok()?;
+        if hold {
+            let t0 = Instant::now();
+            while !done2.load(Ordering::Relaxed) && t0.elapsed() < Duration::from_millis(ms * 10 + 3000) {
+                std::thread::sleep(Duration::from_millis(5));
+            }
+        }
+        Some(())
+    });
+    let st = settings(ms, 0);
+    let mut c = match VTcpSocket::new(&addr, &st) {
+        Ok(c) => c,
+        Err(e) => return format!("ERR {}", kind_name(&e.kind)),
+    };
+    if let Err(e) = c.send(&[1, 2, 3, 4]) {
+        done.store(true, Ordering::Relaxed);
+        let _ = h.join();
+        return format!("ERR {}", kind_name(&e.kind));
+    }
+    let t0 = Instant::now();
+    let back = c.receive(None);
+    let elapsed = t0.elapsed().as_millis();
+    done.store(true, Ordering::Relaxed);
+    let _ = h.join();
+    match back {
+        Ok(b) => format!("OK x{} ;; - ;; T{}", hex(&b), elapsed),
+        Err(e) => format!("ERR {} ;; - ;; T{}", kind_name(&e.kind), elapsed),
+    }
+}
+
+fn unhex_dot(s: &str) -> Option<Vec<u8>> {
+    if s == "." {
+        return Some(vec![]);
+    }
+    if s.len() % 2 != 0 {
+        return None;
+    }
+    (0 .. s.len() / 2).map(|i| u8::from_str_radix(&s[2 * i .. 2 * i + 2], 16).ok()).collect()
 }
